@@ -12,6 +12,7 @@
 #include <sbepp/sbeppc/ireporter.hpp>
 
 #include <string>
+#include <limits>
 #include <string_view>
 #include <unordered_map>
 #include <unordered_set>
@@ -165,7 +166,20 @@ private:
         }
 
         const auto enc_size = context.size;
-        current_offset += enc_size;
+        advance_offset(current_offset, enc_size, f.location);
+    }
+
+    // moves `offset` past an encoding of the given size
+    static void advance_offset(
+        offset_t& offset,
+        const std::size_t size,
+        const source_location& location)
+    {
+        if(size > (std::numeric_limits<offset_t>::max() - offset))
+        {
+            throw_error("{}: offset is too big", location);
+        }
+        offset += size;
     }
 
     static field_presence
@@ -1215,7 +1229,7 @@ private:
         }
 
         const auto enc_size = context.size;
-        current_offset += enc_size;
+        advance_offset(current_offset, enc_size, element.location);
     }
 
     void validate_encoding(const sbe::composite& c)
